@@ -52,13 +52,14 @@ REJECT_EXC = (ValueError, TypeError, NotImplementedError)
 class Node(object):
     """A built operator together with the operands it was built from."""
 
-    __slots__ = ('op', 'children', 'entry', 'desc', 'depth')
+    __slots__ = ('op', 'children', 'entry', 'desc', 'depth', 'available')
 
     def __init__(self, op, children, entry, desc):
         self.op = op
         self.children = list(children)
         self.entry = entry
         self.desc = desc
+        self.available = False     # set by the check: op.adjoint exists
         self.depth = 1 + max([c.depth for c in children] + [0])
 
 
@@ -890,14 +891,33 @@ def fam_complex(draw):
     field = draw(st.sampled_from(['complex', 'complex', 'real']))
     sd = draw(leaf_sd(field))
     e = draw(st.sampled_from(['realpart', 'imagpart', 'cembed', 'cembed',
-                              'cmod_deriv', 'cmodsq_deriv']))
+                              'cmod_deriv', 'cmodsq_deriv', 'rlinear']))
     op = {'e': e, 'sp': 'X'}
     if e == 'cembed':
-        s = draw(st.sampled_from([1.0, 1j, 2.0, -3j]) | scalars('complex'))
-        op['s'] = s
+        op['s'] = draw(cembed_scalars())
     if e in ('cmod_deriv', 'cmodsq_deriv'):
         op['x'] = draw(seeds())
+    if e == 'rlinear':
+        # R-linear but not C-linear map between complex spaces:
+        # embed(s) o Re/Im (o scaling), X complex
+        C = 'X' if field == 'complex' else ['cplx', 'X']
+        R = ['real', 'X'] if field == 'complex' else 'X'
+        inner = {'e': draw(st.sampled_from(['realpart', 'imagpart'])),
+                 'sp': C}
+        if draw(st.booleans()):
+            inner = {'e': 'comp', 'args': [inner, {
+                'e': 'scaling', 'sp': C, 's': draw(scalars('complex'))}]}
+        op = {'e': 'comp', 'args': [
+            {'e': 'cembed', 'sp': R, 's': draw(cembed_scalars())}, inner]}
     return _case('complex_ops', {'X': sd}, op)
+
+
+def cembed_scalars():
+    """The three branches of ComplexEmbedding.adjoint / .inverse."""
+    return st.one_of(
+        st.sampled_from([1.0, 2.0, -1.5, 0.5, -1.0]),
+        st.sampled_from([1j, -3j, 0.5j, -1j, 2j]),
+        scalars('complex'))
 
 
 def _mdt(sd, field):
@@ -1292,7 +1312,7 @@ def _leaf(draw, U, dom, ran):
     if U.is_field(dom):
         return {'e': 'multiply_field', 'sp': ran, 'v': draw(seeds())}
     pd, pr = U.parts(dom), U.parts(ran)
-    cands = ['zero']
+    cands = []
     if _teq(dom, ran):
         cands += ['identity', 'scaling', 'scaling', 'multiply_vec',
                   'multiply_vec', 'multiply_scal']
@@ -1312,16 +1332,16 @@ def _leaf(draw, U, dom, ran):
         # two different leaf types
         if not isinstance(dom, str) and dom[0] == 'cplx' and \
                 _teq(dom[1], ran):
-            cands = ['realpart', 'imagpart']       # never: dom is cplx of ran
+            cands = ['realpart', 'imagpart']       # real universe, C -> X
         if not isinstance(ran, str) and ran[0] == 'real' and \
                 _teq(ran[1], dom):
             cands = ['realpart', 'imagpart', 'cmodsq_deriv', 'cmod_deriv']
         elif not isinstance(ran, str) and ran[0] == 'cplx' and \
                 _teq(ran[1], dom):
-            cands = ['cembed', 'cembed', 'zero']
+            cands = ['cembed']
         elif not isinstance(dom, str) and dom[0] == 'real' and \
                 _teq(dom[1], ran):
-            cands = ['cembed', 'zero']
+            cands = ['cembed']
         elif not isinstance(ran, str) and ran[0] == 'like' and \
                 _teq(ran[1], dom) and U.clean(dom):
             cands = ['matrix_like']
@@ -1360,6 +1380,8 @@ def _leaf(draw, U, dom, ran):
         cands += ['pspaceop', 'pspaceop']
         if len(pd) == len(pr):
             cands += ['diagonal', 'diagonal']
+    if not cands or draw(st.integers(0, 7)) == 0:
+        cands = ['zero']
     e = draw(st.sampled_from(cands))
     if e == 'zero':
         return {'e': 'zero', 'dom': dom, 'ran': None if _teq(dom, ran)
@@ -1386,7 +1408,7 @@ def _leaf(draw, U, dom, ran):
     if e in ('cmod_deriv', 'cmodsq_deriv'):
         return {'e': e, 'sp': dom, 'x': draw(seeds())}
     if e == 'cembed':
-        return {'e': e, 'sp': dom, 's': draw(scalars('complex'))}
+        return {'e': e, 'sp': dom, 's': draw(cembed_scalars())}
     if e == 'matrix_sq':
         sd = U.base_sd(dom)
         axis = draw(st.integers(0, len(sd['shape']) - 1))
@@ -1568,7 +1590,7 @@ def _mid_type(draw, U, dom, ran):
 
 @st.composite
 def fam_tree(draw, max_depth=3):
-    field = draw(fields())
+    field = draw(st.sampled_from(['real', 'complex']))
     clean = draw(st.integers(0, 4)) > 0
     xk = draw(st.sampled_from(['tensor', 'discr']))
     if xk == 'tensor':
